@@ -45,8 +45,17 @@ def main():
         from chameleon.tokenize import iter_xml
         for t in iter_xml(body.replace("@@", "!!"), filename):
             yield t
+    if job.get("fsize_limit"):
+        # the storage runs out while the module is written: writes beyond the limit fail with EFBIG
+        import resource
+        import signal
+        signal.signal(signal.SIGXFSZ, signal.SIG_IGN)
+        resource.setrlimit(resource.RLIMIT_FSIZE, (job["fsize_limit"], job["fsize_limit"]))
     for case in job["cases"]:
         opts = dict(case.get("options", {}))
+        xb = opts.pop("_xb", None)
+        if xb:
+            opts["extra_builtins"] = {n: n.upper() for n in xb.split("|")}
         if opts.pop("_translate", False):
             opts["translate"] = tr
         if opts.pop("_tokenizer", False):
